@@ -28,8 +28,62 @@ func init() {
 
 type c13Tile struct{ h, x, y, vz, z int64 }
 
+// c13Repeated (thorough tier only, ~2^30 range steps, about a minute): the same tile, whose key covers 4096 vertical
+// indices, listed 2^18 + 1 times. The de-duplicated result is the 4096 (or 4097) IDs of one tile.
+func c13Repeated(c *core.Case) {
+	t := c13Tile{h: 20, x: 5, y: 7, vz: 10, z: 515}
+	E, O, V := int64(25), int64(1<<24), int64(22)
+	n := 1<<18 + 1
+	c.Tag("one-tile-listed-2^18-times")
+	c.NonTrivial()
+	c.KI(t.h, t.x, t.y, t.vz, t.z, int64(n))
+	var got []object.ExtendedSpatialID
+	var err error
+	c.Desc = func() any {
+		return map[string]any{"tile(h/x/y/vz/z)": "20/5/7/10/515", "listed": n, "zBaseExponent": E, "zBaseOffset": O, "outputVZoom": V, "result_len": len(got), "error": fmt.Sprint(err)}
+	}
+	objs := make([]*object.TileXYZ, n)
+	for i := range objs {
+		o, e := object.NewTileXYZ(t.h, t.x, t.y, t.vz, t.z)
+		if e != nil {
+			c.Fail("tile-constructor", nil, "NewTileXYZ: %v", e)
+			return
+		}
+		objs[i] = o
+	}
+	exLo, exHi, wLo, wHi := ref.FCoverOfKey(t.z, t.vz, V, E, O)
+	got, err = transform.ConvertTileXYZsToExtendedSpatialIDs(objs, E, O, V)
+	c.Call()
+	if err != nil {
+		c.Fail("tile-spurious-error", nil, "one valid tile listed %d times: %v", n, err)
+		return
+	}
+	seen := map[int64]struct{}{}
+	for _, g := range got {
+		if _, dup := seen[g.Z()]; dup || g.HZoom() != t.h || g.X() != t.x || g.Y() != t.y || g.VZoom() != V {
+			c.Fail("tile-duplicates", nil, "one tile listed %d times: result holds %s twice or a foreign ID", n, g.ID())
+			return
+		}
+		seen[g.Z()] = struct{}{}
+		if g.Z() < wLo.Int64() || g.Z() > wHi.Int64() {
+			c.Fail("tile-excess-cells", nil, "vertical index %d outside the metre-widened range", g.Z())
+			return
+		}
+	}
+	for k := exLo.Int64(); k <= exHi.Int64(); k++ {
+		if _, ok := seen[k]; !ok {
+			c.Fail("tile-lost-cells", nil, "vertical index %d of the covering range is missing", k)
+			return
+		}
+	}
+}
+
 func runC13(c *core.Case) {
 	r := c.R
+	if c.Tier == "thorough" && c.I == 4 {
+		c13Repeated(c)
+		return
+	}
 	E := r.Range(18, 32)
 	if r.P(0.3) {
 		E = 25
@@ -41,11 +95,20 @@ func runC13(c *core.Case) {
 	V := genZoom(r)
 	n := 1 + r.Intn(6)
 	veryLong := r.P(0.0003) || (c.Tier == "thorough" && r.P(0.0003))
+	directed := c.I < 4 // directed: more than 2^16 tiles under scheduler widths 512, 3, 300 and 6
+	if directed {
+		veryLong = true
+		c.ProcsN([]int{512, 3, 300, 6}[c.I])
+	}
 	if veryLong { // 2^15 .. 2^17 + 3 tiles (each maps to one or two vertical indices); the last few tiles are unlike the rest
 		n = veryLongLen(r)
+		if directed {
+			n = []int{65537, 131075, 65539, 66361}[c.I]
+		}
 		E, O = 25, 1<<24
 		V = r.Range(20, 24)
 		c.Tag("very-long-list")
+		c.Procs()
 	}
 	var tiles []c13Tile
 	mk := func() c13Tile {
@@ -285,7 +348,7 @@ func runC13(c *core.Case) {
 		}
 		cells += pow2(2 * absI(d))
 	}
-	if okCost && cells <= 20000 {
+	if okCost && (cells <= 20000 || veryLong && cells <= 1<<21) {
 		sp, err2 := transform.ConvertTileXYZsToSpatialIDs(objs, E, O, V)
 		c.Call()
 		if err2 != nil {
